@@ -521,6 +521,7 @@ def run (caseToks impl : List String) : String :=
   | "rs" :: c => rs c impl
   | "st" :: c => C11U.st c impl
   | "hw" :: c => C11U.hw c impl
+  | "rh" :: c => C11U.rh c impl
   | _ => "E E unknown-kind"
 
 end MosnVerif.Drive.C11
